@@ -723,7 +723,110 @@ func (sc *scene) inputClass() string {
 // than a weld cell, so a weld cell never merges two different vertices.
 func (sc *scene) tight(attr string) bool { return sc.latticeOnly[attr] && sc.Cutoff == 0 }
 
+// manyBlockCases: the first cases of the field phase (so that they start first and overlap
+// with the rest) are the many-blocks sub-population.
+func manyBlockCases(tier string) int {
+	if tier == "thorough" {
+		return 12
+	}
+	return 2
+}
+
+// manyBlocks: a long thin wobbling tube along one axis that crosses 2*NumCPU+2.. blocks in a
+// row, i.e. more blocks than MarchParallel has workers (runtime.NumCPU()): every worker
+// marches several blocks, neighbours included, and the surface crosses every seam. One
+// sequential March is the reference for 4 repeated MarchParallel runs on the same canvas and
+// for one MarchParallel of a canvas filled by AddFieldParallel (more jobs than workers too).
+func manyBlocks(c *run.Ctx) run.Result {
+	var res run.Result
+	r := c.Rng
+	ncpu := runtime.NumCPU()
+	n := 2*ncpu + 2 + r.Intn(3)
+	axis := c.Case % 3
+	cpu := []float64{4, 5, 8}[r.Intn(3)]
+	k0 := -r.Intn(n) // first block along the axis: negative and positive block coordinates
+	var lo, hi [3]float64
+	var centre [3]float64
+	for a := 0; a < 3; a++ {
+		if a == axis {
+			lo[a] = float64(k0*blockCells) + 20 + float64(r.Intn(30)) + r.Float64()
+			hi[a] = float64((k0+n-1)*blockCells) + 40 + float64(r.Intn(40)) + r.Float64()
+		} else {
+			base := float64((r.Intn(3)-1)*blockCells) + 25 + float64(r.Intn(40))
+			lo[a] = base + r.Float64()
+			hi[a] = base + 18 + r.Float64()
+			centre[a] = base + 9.5
+		}
+	}
+	o1, o2 := (axis+1)%3, (axis+2)%3
+	r0, ra := 4.2+r.Float64(), 0.8+r.Float64()*0.8
+	k1, k2, k3 := 0.011+r.Float64()*0.01, 0.017+r.Float64()*0.01, 0.023+r.Float64()*0.01
+	fn := func(v vector3.Float64) float64 {
+		p := [3]float64{v.X() * cpu, v.Y() * cpu, v.Z() * cpu} // cell units
+		t := p[axis]
+		d1 := p[o1] - centre[o1] - 1.7*math.Sin(k1*t)
+		d2 := p[o2] - centre[o2] - 1.3*math.Cos(k2*t+0.4)
+		return (math.Sqrt(d1*d1+d2*d2*1.21) - (r0 + ra*math.Sin(k3*t+1))) / cpu
+	}
+	field := marching.Field{
+		Domain:          geometry.NewAABBFromPoints(vector3.New(lo[0]/cpu, lo[1]/cpu, lo[2]/cpu), vector3.New(hi[0]/cpu, hi[1]/cpu, hi[2]/cpu)),
+		Float1Functions: map[string]sample.Vec3ToFloat{modeling.PositionAttribute: fn},
+	}
+	desc := map[string]any{"kind": "many-blocks tube", "axis": axis, "blocks_in_a_row": n, "num_cpu": ncpu, "first_block": k0, "cubes_per_unit": cpu,
+		"lo_cells": lo, "hi_cells": hi, "radius": []float64{r0, ra}, "k": []float64{k1, k2, k3}}
+	res.Sig = fmt.Sprintf("many-blocks/axis%d/%dblocks/cpu%g", axis, n, cpu)
+	res.Sample = desc
+	input := fmt.Sprintf("one tube over %d blocks in a row along axis %d (NumCPU %d workers)", n, axis, ncpu)
+	c.Note("many-blocks " + res.Sig)
+
+	cSeq := marching.NewMarchingCanvas(cpu)
+	if p := run.Try(func() { cSeq.AddField(field) }); p != nil {
+		res.Inconclusive = "reference: AddField panicked: " + p.Value
+		return res
+	}
+	c.Note("sequential March")
+	seq, p := march(cSeq, modeling.PositionAttribute, 0, false)
+	if p != nil || seq.err != "" || seq.n == 0 {
+		res.Inconclusive = fmt.Sprintf("reference: sequential March unusable (panic %v, err %q, %d triangles)", p != nil, seq.err, seq.n)
+		return res
+	}
+	for rep := 0; rep < 4; rep++ {
+		c.Note(fmt.Sprintf("MarchParallel #%d", rep))
+		mp, p := march(cSeq, modeling.PositionAttribute, 0, true)
+		if p != nil {
+			res.Violate("runtime-panic", "MarchingCanvas.MarchOnAttributeParallel", input, "sequential March returned normally; the parallel one panicked: "+p.Value+"\n"+p.Stack, desc)
+		} else if d := seq.diff(mp, false); d != "" {
+			res.Violate("march-mismatch", "MarchingCanvas.MarchOnAttributeParallel", input, fmt.Sprintf("MarchParallel run %d differs from March on the same canvas: %s", rep, d), desc)
+		}
+		res.Count("many_block_parallel_marches", 1)
+		res.Count("march_parallel_compared", 1)
+	}
+	// more jobs than workers for the parallel adder as well
+	cPar := marching.NewMarchingCanvas(cpu)
+	c.Note("AddFieldParallel + MarchParallel")
+	if p := run.Try(func() { cPar.AddFieldParallel(field) }); p != nil {
+		res.Violate("runtime-panic", adderSite[addPar], input, "AddField returned normally; AddFieldParallel panicked: "+p.Value+"\n"+p.Stack, desc)
+	} else if mp, p := march(cPar, modeling.PositionAttribute, 0, true); p != nil {
+		res.Violate("runtime-panic", "MarchingCanvas.MarchOnAttributeParallel", input, p.Value+"\n"+p.Stack, desc)
+	} else if d := seq.diff(mp, false); d != "" {
+		res.Violate("field-accumulate-mismatch", adderSite[addPar], input, "canvas filled by AddFieldParallel (marched in parallel) differs from the canvas filled by AddField (marched sequentially): "+d, desc)
+	}
+	res.Count("many_block_parallel_marches", 1)
+	res.Count("many_block_cases", 1)
+	res.Count("many_block_blocks", int64(n))
+	if n > ncpu {
+		res.Count("many_block_blocks_over_cpus", 1)
+	}
+	res.Count("field_triangles_compared", int64(seq.n))
+	res.SetAdd("gomaxprocs", fmt.Sprint(runtime.GOMAXPROCS(0)))
+	res.Nontrivial = n > ncpu && seq.n > 0
+	return res
+}
+
 func fieldCase(c *run.Ctx) run.Result {
+	if c.Case < manyBlockCases(c.Tier) {
+		return manyBlocks(c)
+	}
 	var res run.Result
 	r := c.Rng
 	budget := 8
